@@ -672,6 +672,8 @@ func c18RunCallG(out *zzverif.Out, c *c18Case, fix bool, realS *Sampler, r float
 	var stage *c18Stage
 	var baseFlags []string
 	haveBase := false
+	var pickVals, pickCum []float32 // the filtered probabilities / their cumulative sums, for the `pick` stage op
+	var pickIds []int32
 	if s.temperature != 0 {
 		W := append([]token(nil), L...)
 		lv0 := c18Vals(W)
@@ -763,19 +765,9 @@ func c18RunCallG(out *zzverif.Out, c *c18Case, fix bool, realS *Sampler, r float
 						nanSeen = true
 					}
 					cumF = cum
-					if small {
-						// the pick stage on its own
-						fv := c18Vals(fm)
-						idx := sort.Search(len(cum), func(i int) bool { return !(cum[i] < r*sum) })
-						obs := "err:nan"
-						if sum == sum {
-							if idx < len(cum) {
-								obs = fmt.Sprintf("%d %s", idx, c18Bits(cum[idx]))
-							} else {
-								obs = "panic"
-							}
-						}
-						out.Case(fmt.Sprintf("pick %s %s", c18Bits(r), c18FList(fv)), obs)
+					pickVals, pickCum, pickIds = c18Vals(fm), cum, nil
+					for _, t := range fm {
+						pickIds = append(pickIds, t.id)
 					}
 				}
 				if nanSeen {
@@ -810,6 +802,26 @@ func c18RunCallG(out *zzverif.Out, c *c18Case, fix bool, realS *Sampler, r float
 	}
 	out.Count("res_" + strings.Fields(res.head)[0])
 	c18Branches(out, c, &s, L, kt, kp, km, status, res, stage)
+	if small && pickVals != nil {
+		// the pick stage on its own: the index is the one the REAL call landed on (position of the returned id
+		// in the list the real filters kept), not a re-implementation of the search
+		obs := "panic"
+		switch {
+		case res.err != nil && res.head == "err:nan":
+			obs = "err:nan"
+		case res.err == nil && res.pnc == nil:
+			obs = "id-not-in-filtered-list"
+			for i, id := range pickIds {
+				if id == res.id {
+					obs = fmt.Sprintf("%d %s", i, c18Bits(pickCum[i]))
+					break
+				}
+			}
+		case res.err != nil:
+			obs = res.head
+		}
+		out.Case(fmt.Sprintf("pick %s %s", c18Bits(r), c18FList(pickVals)), obs)
+	}
 	fixFlag := c18FixMask()
 	preFlag := 0
 	if pre {
@@ -1176,6 +1188,9 @@ func c18LargeRuns(out *zzverif.Out, r *zzverif.Rng, fix bool, rounds int) {
 	for round := 0; round < rounds; round++ {
 		for _, n := range []int{16383, 16384, 16385, 32000, 128256} {
 			k := zzverif.Pick(r, []int{0, 0, -1, n, n + 1, 40, n - 1})
+			if n == 32000 { // one large history per round on the heap path: no tie-order issue, so it also goes through `hist`
+				k = 40
+			}
 			p := zzverif.Pick(r, []float32{1, 1, 0.95, 0.9})
 			mp := zzverif.Pick(r, []float32{0, 0, 0.01})
 			temp := zzverif.Pick(r, []float32{1, 1, 0.7, 1.5})
@@ -1289,6 +1304,17 @@ func c18L2(out *zzverif.Out, c *c18Case, s *Sampler, res c18Result, line string,
 			got := c.logits[res.id]
 			if got != got || got < maxv {
 				out.L2("greedy-not-max", line, fmt.Sprintf("cause=nan-logit id=%d logit=%s max-non-nan=%v nan-at-0=%v", res.id, c18Bits(got), maxv, c.logits[0] != c.logits[0]))
+			}
+		}
+		if temp != 0 {
+			// outside the property's quantifier, but never unmonitored: with a NaN among the logits the weighted
+			// path answers an error, or (NaN outside the top-k window) a token whose own logit is neither NaN
+			// nor -Inf
+			out.Count("l2_nan_weighted_checked")
+			if res.err == nil {
+				if got := c.logits[res.id]; got != got || got == c18NegInf {
+					out.L2("nan-vector-inadmissible-token", line, fmt.Sprintf("id=%d logit=%s", res.id, c18Bits(got)))
+				}
 			}
 		}
 		return
@@ -1604,7 +1630,10 @@ func c18RunHist(out *zzverif.Out, h *c18Hist, fix bool) {
 	if large || c18HistSeq%6 == 0 {
 		c18EnvRepro(out, h, line, fix)
 	}
-	if !anyPre && !h.weird && !large {
+	if !anyPre && !h.weird {
+		if large {
+			out.Count("large_hist_ops")
+		}
 		fixFlag := c18FixMask()
 		var op strings.Builder
 		fmt.Fprintf(&op, "hist %d %s %d %s %s %d %d", fixFlag, c18Bits(h.temp), h.k, c18Bits(h.p), c18Bits(h.mp), h.seed, len(h.calls))
